@@ -10,8 +10,8 @@
      write the artifact with overwrite=True and never look at other datasets' records, so two datasets
      whose template output coincides share one artifact (the later write wins);
    * get resolves the artifact only through the stored record and compares the recorded size;
-   * ingest of a ref that the datastore already holds writes the artifact FIRST, then fails on the
-     record insert, and the rollback removes the artifact it has just overwritten;
+   * ingest of a ref that the datastore already holds is refused before anything is written (commit 2da36a1;
+     the destructive behaviour before that commit survives only as `step_unfixed`);
    * an artifact is deleted on removal only when no remaining record points at its path.
    Codecs, sizes, the path function and the formatter extension are Section variables.  No proofs here. *)
 From Coq Require Import String Ascii List Bool ZArith NArith.
@@ -203,18 +203,19 @@ Section DS.
             match c_kind c with
             | KMem => (s, Refused NotImpl)
             | _ =>
-                match file_path i (c_fmt c) with
-                | Template.FOk p =>
-                    match aget N.eqb (recs s) id with
-                    | Some _ =>
-                        (* artifact written (overwrite), record insert fails, rollback removes the artifact *)
-                        (mkState (reg s) (tags s) (recs s) (adel String.eqb (fs s) p) (mem s) (orig s), Refused Conflict)
-                    | None =>
+                match aget N.eqb (recs s) id with
+                | Some _ =>
+                    (* commit 2da36a1: FileDatastore._refuse_datasets_already_stored at the top of _finishIngest --
+                       refused before any file is transferred; the registry import is rolled back *)
+                    (s, Refused Conflict)
+                | None =>
+                    match file_path i (c_fmt c) with
+                    | Template.FOk p =>
                         (mkState reg' (tags s) (aset N.eqb (recs s) id (mkRec p (c_fmt c) (size b)))
                                  (aset String.eqb (fs s) p b) (mem s) (set_orig (orig s) id (dec (c_fmt c) b)), Done)
+                    | Template.FKeyErr => (s, Refused KeyErr)
+                    | Template.FOutside => (s, Refused ValueErr)
                     end
-                | Template.FKeyErr => (s, Refused KeyErr)
-                | Template.FOutside => (s, Refused ValueErr)
                 end
             end
         end
@@ -264,6 +265,21 @@ Section DS.
   Definition run (c : cfg) (s : state) (h : list op) : state :=
     fold_left (fun st x => fst (step c st x)) h s.
 
+  (* the behaviour BEFORE commit 2da36a1, kept only as a variant for the `_without_fix` witnesses: the ingest of a
+     dataset the datastore already holds wrote the artifact first (overwrite), the record insert failed, and the
+     rollback removed the artifact it had just overwritten *)
+  Definition step_unfixed (c : cfg) (s : state) (x : op) : state * outcome :=
+    match x with
+    | Ingest mv id i b =>
+        match import_reg (reg s) id i, c_kind c, aget N.eqb (recs s) id, file_path i (c_fmt c) with
+        | Some _, KFile, Some _, Template.FOk p
+        | Some _, KChained, Some _, Template.FOk p =>
+            (mkState (reg s) (tags s) (recs s) (adel String.eqb (fs s) p) (mem s) (orig s), Refused Conflict)
+        | _, _, _, _ => step c s x
+        end
+    | _ => step c s x
+    end.
+
   (* ---- the guard under which the property holds ----------------------------------------------- *)
   (* the artifact path an operation is about to write, and for which dataset *)
   Definition writes (c : cfg) (s : state) (x : op) : option (N * string) :=
@@ -271,8 +287,13 @@ Section DS.
     | KMem => None
     | _ =>
         match x with
-        | Put id i _ | Ingest _ id i _ =>
+        | Put id i _ =>
             match file_path i (c_fmt c) with Template.FOk p => Some (id, p) | _ => None end
+        | Ingest _ id i _ =>
+            match aget N.eqb (recs s) id with
+            | Some _ => None                                  (* refused before anything is written (2da36a1) *)
+            | None => match file_path i (c_fmt c) with Template.FOk p => Some (id, p) | _ => None end
+            end
         | Transfer src id =>
             match aget N.eqb (recs src) id with Some r => Some (id, r_path r) | None => None end
         | _ => None
@@ -286,7 +307,8 @@ Section DS.
     | Some (id, p) => negb (existsb (fun kr => negb (N.eqb (fst kr) id) && String.eqb (r_path (snd kr)) p) (recs s))
     end.
 
-  (* an ingest of a dataset the datastore already holds (the refused operation that is not a no-op) *)
+  (* an ingest of a dataset the datastore already holds (before 2da36a1 the refused operation that was not a no-op;
+     no longer part of the guard) *)
   Definition reingest (s : state) (x : op) : bool :=
     match x with
     | Ingest _ id _ _ => match aget N.eqb (recs s) id with Some _ => true | None => false end
@@ -296,7 +318,7 @@ Section DS.
   Fixpoint no_path_collision (c : cfg) (s : state) (h : list op) : bool :=
     match h with
     | [] => true
-    | x :: r => collision_free c s x && negb (reingest s x) && no_path_collision c (fst (step c s x)) r
+    | x :: r => collision_free c s x && no_path_collision c (fst (step c s x)) r
     end.
 
   (* ---- vocabulary of the theorems -------------------------------------------------------------- *)
